@@ -124,6 +124,20 @@ func Quot(num, den, denScale float64) RV {
 	return RV{V: v, Ill: ill}
 }
 
+// Resid returns the extra tolerance scale (for RV.S) of an output that is
+// formed from a difference of running-sum averages: a running sum over terms
+// of magnitude up to pmax may legitimately carry an absolute rounding residue
+// of about 1e-13*pmax (hundreds of additions at 2^-53 each), which the output
+// amplifies by ampl = |d out / d sum|. With the 1e-9 relative tolerance this
+// admits an absolute error of 1e-13*pmax*ampl.
+func Resid(pmax, ampl float64) float64 {
+	v := 1e-4 * pmax * ampl
+	if math.IsNaN(v) || math.IsInf(v, 0) {
+		return 0
+	}
+	return v
+}
+
 // Window returns xs[i-p+1 .. i] (inclusive); the caller guarantees i >= p-1.
 func Window(xs []float64, i, p int) []float64 { return xs[i-p+1 : i+1] }
 
